@@ -71,6 +71,14 @@ fn send<T: Send + Sync + 'static>(tx: &Sender<T>, item: T) -> Result<()> {
     }
 }
 
+// Tell a consumer why it is ending. The receiving end lives in a `Consumer` that may
+// already have been dropped (e.g., right after the call that ended it returned to its
+// caller); that must not take the whole connection down, so a disconnected receiver
+// is not an error here. (Consumer channels are unbounded and never full.)
+fn notify_consumer_end(tx: &Sender<ConsumerMessage>, message: ConsumerMessage) {
+    let _ = tx.try_send(message);
+}
+
 // When we set up a return listener, it's just a crossbeam channel. If it gets dropped,
 // we don't want to error; just start discarding returned messages.
 fn try_send_return(slot: &mut ChannelSlot, return_: Return) {
@@ -175,7 +183,7 @@ impl ConnectionState {
                     #[cfg(amiquip_verif)]
                     super::verif::failpoint("server_conn_close_after_reply");
                     for (_, tx) in slot.consumers.drain() {
-                        send(&tx, ConsumerMessage::ServerClosedConnection(make_err()))?;
+                        notify_consumer_end(&tx, ConsumerMessage::ServerClosedConnection(make_err()));
                     }
                 }
             }
@@ -195,7 +203,7 @@ impl ConnectionState {
                     #[cfg(amiquip_verif)]
                     super::verif::failpoint("client_conn_close_after_reply");
                     for (_, tx) in slot.consumers.drain() {
-                        send(&tx, ConsumerMessage::ClientClosedConnection)?;
+                        notify_consumer_end(&tx, ConsumerMessage::ClientClosedConnection);
                     }
                 }
             }
@@ -234,7 +242,7 @@ impl ConnectionState {
                 #[cfg(amiquip_verif)]
                 super::verif::failpoint("server_chan_close_after_reply");
                 for (_, tx) in slot.consumers.drain() {
-                    send(&tx, ConsumerMessage::ServerClosedChannel(make_err()))?;
+                    notify_consumer_end(&tx, ConsumerMessage::ServerClosedChannel(make_err()));
                 }
                 inner.push_method(n, AmqpChannel::CloseOk(ChannelCloseOk {}));
             }
@@ -253,7 +261,7 @@ impl ConnectionState {
                         ))),
                     )?;
                     for (_, tx) in slot.consumers.drain() {
-                        send(&tx, ConsumerMessage::ClientClosedChannel)?;
+                        notify_consumer_end(&tx, ConsumerMessage::ClientClosedChannel);
                     }
                 }
             }
@@ -281,7 +289,7 @@ impl ConnectionState {
                 let consumer_tag = cancel.consumer_tag;
                 let slot = slot_get_mut(inner, n)?;
                 if let Some(tx) = slot.consumers.remove(&consumer_tag) {
-                    send(&tx, ConsumerMessage::ServerCancelled)?;
+                    notify_consumer_end(&tx, ConsumerMessage::ServerCancelled);
                 }
                 if !cancel.nowait {
                     inner.push_method(n, AmqpBasic::CancelOk(CancelOk { consumer_tag }));
@@ -300,7 +308,7 @@ impl ConnectionState {
                 #[cfg(amiquip_verif)]
                 super::verif::failpoint("cancel_ok_after_reply");
                 if let Some(tx) = consumer {
-                    send(&tx, ConsumerMessage::ClientCancelled)?;
+                    notify_consumer_end(&tx, ConsumerMessage::ClientCancelled);
                 }
             }
             // Server beginning delivery of content to a consumer.
